@@ -26,7 +26,9 @@ use p2panda_sync::protocols::{LogSync, LogSyncEvent, Logs};
 use p2panda_sync::traits::Protocol;
 use tokio::sync::broadcast;
 
-type Sched = Rc<RefCell<Vec<String>>>;
+mod topic;
+
+pub type Sched = Rc<RefCell<Vec<String>>>;
 
 struct EvTx {
     inner: mpsc::Sender<Msg>,
@@ -128,15 +130,15 @@ impl Config {
     }
 }
 
-fn btok(b: &[usize]) -> String {
+pub fn btok(b: &[usize]) -> String {
     if b.is_empty() { "-".into() } else { b.iter().map(|x| x.to_string()).collect::<Vec<_>>().join(",") }
 }
 
-fn sync_total(b: &[usize]) -> usize {
+pub fn sync_total(b: &[usize]) -> usize {
     if b.is_empty() { 0 } else { b.iter().sum::<usize>() + 1 }
 }
 
-fn static_verdict(cap: usize, a: &[usize], b: &[usize]) -> &'static str {
+pub fn static_verdict(cap: usize, a: &[usize], b: &[usize]) -> &'static str {
     if cap == 0 {
         "cap0"
     } else if sync_total(a) > cap && sync_total(b) > cap {
@@ -412,7 +414,16 @@ fn main() {
         let text = std::fs::read_to_string(args.replay.as_ref().expect("replay file")).unwrap();
         let v: hc::serde_json::Value = hc::serde_json::from_str(&text).unwrap();
         let req = v["request"].as_str().unwrap().to_string();
-        let cfg = Config::parse(req.split_whitespace().next().unwrap());
+        let first = req.split_whitespace().next().unwrap();
+        if first.starts_with("#T") {
+            let cfg = topic::TConfig::parse(first);
+            for _ in 0..5 {
+                topic::emit_topic(&mut out, &uni, &cfg);
+            }
+            out.finish("replay (TopicLogSync pair over the buffering transport)", false);
+            return;
+        }
+        let cfg = Config::parse(first);
         // the select! of the sessions is randomised: a stuck outcome may need several attempts
         for _ in 0..20 {
             emit(&mut out, &uni, &cfg);
@@ -463,6 +474,32 @@ fn main() {
         let cfg = if i % 2 == 0 { gen_config(&mut rng, &caps) } else { gen_buffer_config(&mut rng) };
         emit(&mut out, &uni, &cfg);
     }
+    // part C: TopicLogSync pairs over a buffering transport (through the LogSyncSink adapter)
+    for pipe in [1usize, 2, 8] {
+        for hw in [1usize, 4] {
+            for live in [true, false] {
+                for (va, vb) in [(0, 0), (pipe + 3, 0), (0, pipe + 3), (pipe + 9, 1), (1, pipe + 9), (pipe, pipe)] {
+                    let mut logs = vec![];
+                    if va > 0 {
+                        logs.push((0, va, 0));
+                    }
+                    if vb > 0 {
+                        logs.push((0, 0, vb));
+                    }
+                    topic::emit_topic(&mut out, &uni, &topic::TConfig { pipe, hw, live, logs, b_first: false });
+                }
+            }
+        }
+    }
+    let n_topic = match args.tier {
+        Tier::Quick => 600,
+        Tier::Thorough => 15000,
+        Tier::Search => 5000,
+    };
+    for _ in 0..n_topic {
+        let cfg = topic::gen_topic(&mut rng);
+        topic::emit_topic(&mut out, &uni, &cfg);
+    }
     // select! fairness: where both arms of the Sync-state select! were ready, the receive arm must
     // get its share (tokio picks the first arm to poll at random); a starved receive arm turns
     // every "may deadlock" configuration into a certain deadlock
@@ -479,7 +516,7 @@ fn main() {
         );
     }
     out.finish(
-        "channel capacity in {0,1,2,3,4,8,64,512} x 0-40 operations per side in 0-3 author batches each (a third of the cases sized around the capacity boundary), either session polled first; half of the cases (and a fixed grid) vary the sessions' own buffer_capacity N in {1,2,3,8,16} with per-side volumes below / at / above N in all combinations over small and large transports (the verdict must not depend on N). non-trivial = capacity 0, or both sides have more Sync-phase messages (operations + Done) than the capacity",
+        "channel capacity in {0,1,2,3,4,8,64,512} x 0-40 operations per side in 0-3 author batches each (a third of the cases sized around the capacity boundary), either session polled first; half of the cases (and a fixed grid) vary the sessions' own buffer_capacity N in {1,2,3,8,16} with per-side volumes below / at / above N in all combinations over small and large transports (the verdict must not depend on N); part C: TopicLogSync pairs, live mode on/off, over a buffering transport (local send buffer with high-water mark 1-8 + pipe of 1-64 messages, reached through the LogSyncSink adapter), one side idle or small and the other below / at / far above the pipe size. non-trivial = capacity 0, or both sides have more Sync-phase messages (operations + Done) than the capacity",
         false,
     );
 }
